@@ -154,7 +154,7 @@ def _liveness(framing, side, snap, per_read, traffic, policy, WARM, backlog_boun
                     fr.resetFrame()
                 except Exception as e:   # noqa
                     reset_failed.append(e)
-        maxbuf = max(maxbuf, len(fr._buffer))
+        maxbuf = max(maxbuf, framers.buffered(fr))
     while fed < WARM:
         fs = [same(framing, side) if traffic == 'same' else valid(framing, side, i + k) for k in range(per_read)]
         if traffic == 'short':          # the shortest valid frames of the protocol among the traffic
@@ -179,7 +179,7 @@ def _liveness(framing, side, snap, per_read, traffic, policy, WARM, backlog_boun
         read(fs)
     tail = got[n0:]
     if reset_failed:
-        return 'reset-raises', 'resetFrame() itself raised %r with %d bytes buffered' % (reset_failed[0], len(fr._buffer))
+        return 'reset-raises', 'resetFrame() itself raised %r with %d bytes buffered' % (reset_failed[0], framers.buffered(fr))
     if backlog_bound and maxbuf >= WARM + one + 16:
         return 'backlog-unbounded', 'backlog reached %d bytes' % maxbuf
     if traffic == 'short' and per_read > 1:
@@ -290,7 +290,7 @@ def explore_handler(acc, framing, depth):
         for r in range(4):
             out = conn.run_script([valid(framing, 'req', 1000 + r)])
             answered += 1 if len(out) == 1 else 0
-        backlog = len(srv.obj.handler.framer._buffer)
+        backlog = framers.buffered(srv.obj.handler.framer)
         acc.inc('obligations')
         names = [n for n, _ in seq]
         what = None
